@@ -11,6 +11,25 @@ from ..gfi.common import run_for
 def run(chk, prog):
     n, obs = run_for(chk, prog, "C15", ALL)
     chk.floor("obligations tagged C15", n, 26)
+    # "the new return value's change tag matches recomputing pre and post": Dimap.edit computes that tag by running the incremental interpreter over pre / post,
+    # so the interpreter's loop skeleton and its propagation rule (C09's obligations) are necessary conditions of this property (incremental.py is an anchor).
+    from ..report import Check
+    from . import C09
+
+    tmp = Check("C09", chk.tier, chk.seed, write_evidence=False)
+    C09.run(tmp, prog)
+    viol = {(v["rule"], v["instance"]): v for v in tmp.violations}
+    n9 = 0
+    for o in tmp.obligations:
+        if o["rule"] not in ("TAG-PROPAGATE", "INTERP-SKELETON"):
+            continue
+        n9 += 1
+        v = viol.get((o["rule"], o["instance"]))
+        if v:
+            chk.violation(v["rule"], v["instance"], v["construct"], v["derived"], v["expected"], v["where"])
+        else:
+            chk.ok(o["rule"], o["instance"], o["fact"])
+    chk.floor("incremental-interpreter obligations (from C09)", n9, 8)
     chk.explanation = "structural-induction obligations for C15: dimap (DELEG-ROLE, TAG-PAIRING, argument order of post, decorators); each inner GFI call is an opaque atom (induction hypothesis), the derived provenance terms / linear forms are compared with the oracle table"
     for o in [o for o in obs.items if "C15" in o["props"]][:6]:
         chk.sample({"rule": o["rule"], "instance": o["instance"], "derived": o["derived"][:200], "expected": o["expected"][:160]})
